@@ -84,15 +84,33 @@ def run(ctx: Ctx) -> None:
     dn = repo.anchor(TRS, "TimeReversedSolver.determine_n_emitters")
     ctx.touch(m, dn)
     tp = func_params(dn)[0]
-    sym = symbolic_return(dn) or ""
+    import copy as _copy
     import re as _re
-    shape = _re.fullmatch(r"max\((?:\w+\.)?height_func_list\((?:\w+\.)?rref\(%s\)\.x_matrix, (?:\w+\.)?rref\(%s\)\.z_matrix\)\)" % (tp, tp), sym)
-    if shape:
-        ctx.ok("budget.provenance", m, dn, what="max of the height function in echelon gauge")
-    else:
-        ctx.fail("budget.provenance", m, dn, f"determine_n_emitters returns `{sym or '<not straight-line>'}`; the budget must be "
-                                             f"max(height_func_list(rref(tableau).x_matrix, rref(tableau).z_matrix))",
-                 func="TimeReversedSolver.determine_n_emitters", construct="determine_n_emitters: returns " + sym[:120])
+    rets = [r for r in ast.walk(dn) if isinstance(r, ast.Return) and r.value is not None]
+    if not rets:
+        raise AnalysisError("determine_n_emitters: no return")
+    assigns = [n for n in ast.walk(dn) if isinstance(n, ast.Assign) and len(n.targets) == 1 and isinstance(n.targets[0], ast.Name)]
+
+    def inline(expr, before_line, depth=0):
+        class Sub(ast.NodeTransformer):
+            def visit_Name(self, node):
+                if isinstance(node.ctx, ast.Load) and depth < 6:
+                    prev = [a for a in assigns if a.targets[0].id == node.id and a.lineno < before_line]
+                    if prev:
+                        a = max(prev, key=lambda x: x.lineno)
+                        return inline(_copy.deepcopy(a.value), a.lineno, depth + 1)
+                return node
+        return Sub().visit(expr)
+
+    pat = r"max\((?:\w+\.)?height_func_list\((?:\w+\.)?rref\(%s\)\.x_matrix, (?:\w+\.)?rref\(%s\)\.z_matrix\)\)" % (tp, tp)
+    for r in rets:
+        sym = norm(inline(_copy.deepcopy(r.value), r.lineno))
+        if _re.fullmatch(pat, sym):
+            ctx.ok("budget.provenance", m, r, what="max of the height function in echelon gauge")
+        else:
+            ctx.fail("budget.provenance", m, r, f"a return path of determine_n_emitters yields `{sym[:110]}`; on every path the budget must be "
+                                                f"max(height_func_list(rref(tableau).x_matrix, rref(tableau).z_matrix)) — the maximum of the height function",
+                     func="TimeReversedSolver.determine_n_emitters", construct="determine_n_emitters: returns " + sym[:120])
     cd = [c for c in calls_in(sv) if call_attr(c) == "CircuitDAG"]
     ne = get_kw(cd[0], "n_emitter") if cd else None
     if ne is not None and norm(ne) == "self.n_emitter":
@@ -116,7 +134,13 @@ def run(ctx: Ctx) -> None:
     rr = [n for n in ast.walk(hf) if isinstance(n, ast.Assign) and isinstance(n.value, ast.Call) and call_attr(n.value) == "rref"]
     lm = [c for c in calls_in(hf) if call_attr(c) == "leftmost_nontrivial_index"]
     if rr and lm and all(norm(c.args[0]) == norm(rr[0].targets[0]) and c.lineno > rr[0].lineno for c in lm):
-        ctx.ok("height.formula", hm, rr[0], what="input re-reduced to echelon gauge before reading leftmost indices")
+        uncond = flow.must_pass(hf.body, lambda nd: isinstance(nd, ast.Assign) and isinstance(nd.value, ast.Call) and call_attr(nd.value) == "rref")
+        if uncond:
+            ctx.ok("height.formula", hm, rr[0], what="input re-reduced to echelon gauge before reading leftmost indices")
+        else:
+            # a conditional reduction is correct iff its guard is a sound echelon-gauge test, which is a statement about runtime tableaux
+            raise AnalysisError("height_func_list reduces its input to echelon gauge only conditionally; the checker cannot validate the guard "
+                                "predicate, so gauge independence of the height function is undecided (neither pass nor violation)")
     else:
         ctx.fail("height.formula", hm, hf, "height_func_list reads leftmost indices from a tableau that was not passed through rref: the "
                                            "result would depend on the generating set", func="height_func_list", construct="height_func_list: no rref")
